@@ -20,7 +20,7 @@ func sanitizeSelectionSet(ctx *PlanningContext, selectionSet ast.SelectionSet, i
 				scrubFields.Merge(sf)
 
 				var addedFields []string
-				childSelectionSet, addedFields = addScrubFieldsToSelectionSet(ctx, childSelectionSet, s.Definition.Type.Name())
+				childSelectionSet, addedFields = addScrubFieldsToSelectionSet(ctx, childSelectionSet, s.Definition.Type.Name(), false)
 				scrubFields = setMissingScrubFieldsForFieldSelectionSet(ctx, insertionPoint, s, childSelectionSet, scrubFields, addedFields)
 
 				// helper fields which client selected by himself through a fragment should not be scrubbed
@@ -48,7 +48,7 @@ func sanitizeSelectionSet(ctx *PlanningContext, selectionSet ast.SelectionSet, i
 			scrubFields.Merge(sf)
 
 			var addedFields []string
-			childSelectionSet, addedFields = addScrubFieldsToSelectionSet(ctx, childSelectionSet, s.TypeCondition)
+			childSelectionSet, addedFields = addScrubFieldsToSelectionSet(ctx, childSelectionSet, s.TypeCondition, true)
 			for _, f := range addedFields {
 				// objects never have an abstract type, set it for each type they can have
 				if t := ctx.Schema.Types[s.TypeCondition]; t != nil && (t.Kind == ast.Interface || t.Kind == ast.Union) {
@@ -248,7 +248,7 @@ func isFragmentOnTypeContainsField(selectionSet ast.SelectionSet, typename, fiel
 	return false
 }
 
-func addScrubFieldsToSelectionSet(ctx *PlanningContext, selectionSet ast.SelectionSet, fieldname string) (ast.SelectionSet, []string) {
+func addScrubFieldsToSelectionSet(ctx *PlanningContext, selectionSet ast.SelectionSet, fieldname string, isFragment bool) (ast.SelectionSet, []string) {
 	var addedFields []string
 	var isImplementsNode bool
 
@@ -276,6 +276,17 @@ func addScrubFieldsToSelectionSet(ctx *PlanningContext, selectionSet ast.Selecti
 	}
 
 	isFoundIDField := isContainsField(selectionSet, common.IDFieldName)
+	if t := ctx.Schema.Types[fieldname]; t != nil && (t.Kind == ast.Interface || t.Kind == ast.Union) {
+		// an id selected inside a fragment covers the objects of that fragment's type only: it does not do for the fields
+		// of the interface itself, nor for a fragment on it, which is written out for the objects of every type
+		hasOwnFields := lo.ContainsBy(selectionSet, func(sel ast.Selection) bool {
+			f, ok := sel.(*ast.Field)
+			return ok && f.Name != common.TypenameFieldName
+		})
+		if isFragment || hasOwnFields {
+			isFoundIDField = selectionSetHasFieldNamed(selectionSet, common.IDFieldName)
+		}
+	}
 
 	if isFoundIDField {
 		return selectionSet, addedFields
